@@ -4,7 +4,7 @@ For a seed that appears in several result files the last line wins (results afte
 import json, os, shutil, sys
 
 ROOT = os.path.dirname(os.path.dirname(os.path.abspath(__file__)))
-SRCS = [os.path.join(ROOT, "seeded"), "/tmp/seed/out", "/tmp/seed2/out", "/tmp/seed3/out", "/tmp/seed4/out", "/tmp/seed5/out", "/tmp/seed6/out", "/tmp/seed7/out", "/tmp/seed8/out", "/tmp/seed9/out"]   # a filed seed wins: its patch may have been ported to a repaired tree   # where a seed's patch / demonstration / meta may be found
+SRCS = [os.path.join(ROOT, "seeded"), "/tmp/seed/out", "/tmp/seed2/out", "/tmp/seed3/out", "/tmp/seed4/out", "/tmp/seed5/out", "/tmp/seed6/out", "/tmp/seed7/out", "/tmp/seed8/out", "/tmp/seed9/out", "/tmp/seed10/out"]   # a filed seed wins: its patch may have been ported to a repaired tree   # where a seed's patch / demonstration / meta may be found
 
 
 def main():
